@@ -10,7 +10,9 @@ import GqlModel.Vars.Spec
   conforms (list <schema> <gtype> <goval>…)            → one 0/1 per goval, joined by ";"
   coercible (list <schema> <gtype> <goval>…)           → likewise for `Coercible`
   argspec (list <argdefs> <args> <vardefs> <goval>)     → OK <goval> | NONE   (the C15 specification)
-  strconv pi|pf|pb|quote <hex> ; strconv fold <hex s> <hex t>
+  judge <readings> <readings> (list <schema> <gtype> (list <result>…) (list <supplied>…))  → 0/1 strings, see `opJudgeMany`
+  conformsl <5 bits: typenameKey single strictNumStr strictFracInt strictJsonNumber> (list <schema> <gtype> <goval>…)
+  strconv pi|pf|pb|quote <hex>
 -/
 namespace Gql.Ops
 open Gql
@@ -90,24 +92,22 @@ def opJudge (judge : Schema → GType → GoVal → Bool) (args : List String) :
     | _, _ => "bad-tree"
   | _ => "bad-sexp"
 
-/-- conformsl <6 bits: enumFold typenameKey numericStrings fractionalInt jsonNumberAsString flatNested> (list schema type val…) -/
-def opConformsL : List String → String
-  | bits :: rest =>
-    match bits.toList.map (fun c => c == '1') with
-    | [a, b, c, d, e, f] =>
-      opJudge (conformsWith { enumFold := a, typenameKey := b, numericStrings := c, fractionalInt := d,
-                              jsonNumberAsString := e, flatNested := f }) rest
-    | _ => "bad-bits"
-  | _ => "bad-args"
-
-def bitsLeniency (bits : String) : Option Leniency :=
+/-- 5 bits: typenameKey single strictNumStr strictFracInt strictJsonNumber -/
+def bitsReading (bits : String) : Option Reading :=
   match bits.toList.map (fun c => c == '1') with
-  | [a, b, c, d, e, f] => some { enumFold := a, typenameKey := b, numericStrings := c, fractionalInt := d,
-                                 jsonNumberAsString := e, flatNested := f }
+  | [a, b, c, d, e] => some { typenameKey := a, single := b, strictNumStr := c, strictFracInt := d, strictJsonNumber := e }
   | _ => none
 
+/-- conformsl <5 bits> (list schema type val…) -/
+def opConformsL : List String → String
+  | bits :: rest =>
+    match bitsReading bits with
+    | some L => opJudge (conformsWith L) rest
+    | none => "bad-bits"
+  | _ => "bad-args"
+
 /-- judge <bits,bits,…> <bits,bits,…> (list schema type (list result…) (list supplied…)):
-    for every leniency of the first group the verdicts on the results, then for every leniency of
+    for every reading of the first group the verdicts on the results, then for every reading of
     the second group the verdicts on the supplied values; groups separated by "|", verdicts are 0/1 characters -/
 def opJudgeMany : List String → String
   | rb :: sb :: rest =>
@@ -116,7 +116,7 @@ def opJudgeMany : List String → String
       match Wire.dSchema sch, Wire.dType ty, rs.mapM Wire.dGoVal, ss.mapM Wire.dGoVal with
       | some s, some t, some rs, some ss =>
         let run (bits : String) (vals : List GoVal) : String :=
-          match bitsLeniency bits with
+          match bitsReading bits with
           | none => "bad-bits"
           | some L => String.ofList (vals.map fun v => if conformsWith L s t v then '1' else '0')
         "|".intercalate (((rb.splitOn ",").map fun b => run b rs) ++ ((sb.splitOn ",").map fun b => run b ss))
@@ -140,9 +140,6 @@ def opStrconv : List String → String
   | ["quote", h] => match fromHex h with
     | some b => toHexW (Strconv.quote b)
     | none => "bad-hex"
-  | ["fold", hs, ht] => match fromHex hs, fromHex ht with
-    | some s, some t => if Strconv.equalFoldAscii s t then "1" else "0"
-    | _, _ => "bad-hex"
   | _ => "bad-args"
 
 def varsOps : List (String × (List String → String)) :=
